@@ -3,6 +3,7 @@ package conc
 import (
 	"context"
 	"fmt"
+	"google.golang.org/grpc"
 	"runtime"
 	"sync"
 	"time"
@@ -138,17 +139,32 @@ func RunME(p *MEProg) string {
 
 // GMEProg is a concurrent workload on a GCPMultiEndpoint over in-memory servers.
 type GMEProg struct {
-	Property   string `json:"property,omitempty"`
-	Kind       string `json:"kind"` // "gme"
-	G          int    `json:"goroutines"`
-	Iter       int    `json:"iterations"`
-	Updates    int    `json:"updates"`
-	Outages    int    `json:"outages"`
-	Updaters   int    `json:"updaters,omitempty"`   // goroutines calling UpdateMultiEndpoints concurrently (default 1)
-	CloseEarly bool   `json:"closeEarly,omitempty"` // Close() is called while the updaters are still at work (an application shutting down under a configuration watcher)
-	Seed       uint64 `json:"seed"`
-	Pert       int    `json:"perturbation"`
-	Failure    string `json:"failure,omitempty"`
+	Property    string `json:"property,omitempty"`
+	Kind        string `json:"kind"` // "gme"
+	G           int    `json:"goroutines"`
+	Iter        int    `json:"iterations"`
+	Updates     int    `json:"updates"`
+	Outages     int    `json:"outages"`
+	Updaters    int    `json:"updaters,omitempty"`            // goroutines calling UpdateMultiEndpoints concurrently (default 1)
+	ExtCloseAll bool   `json:"appClosesPoolsFirst,omitempty"` // before Close() the application closes every pool connection it handed out through its DialFunc: Close() then gets an error from every pool
+	CloseEarly  bool   `json:"closeEarly,omitempty"`          // Close() is called while the updaters are still at work (an application shutting down under a configuration watcher)
+	Seed        uint64 `json:"seed"`
+	Pert        int    `json:"perturbation"`
+	Failure     string `json:"failure,omitempty"`
+}
+
+// dialRec is gmesim.Dial that remembers the connections it has handed out.
+var dialedMu sync.Mutex
+var dialedConns []*grpc.ClientConn
+
+func dialRec(ctx context.Context, target string, dopts ...grpc.DialOption) (*grpc.ClientConn, error) {
+	c, err := gmesim.Dial(ctx, target, dopts...)
+	if err == nil && c != nil {
+		dialedMu.Lock()
+		dialedConns = append(dialedConns, c)
+		dialedMu.Unlock()
+	}
+	return c, err
 }
 
 // RunGME: RPCs on several MultiEndpoint names || UpdateMultiEndpoints || outages || GCPConfig().
@@ -156,6 +172,9 @@ func RunGME(p *GMEProg) string {
 	pertSeed.Store(p.Seed)
 	pertLevel.Store(int32(p.Pert))
 	defer pertLevel.Store(0)
+	dialedMu.Lock()
+	dialedConns = nil
+	dialedMu.Unlock()
 	eps := gmesim.EPNames
 	for _, e := range eps {
 		gmesim.SetUp(e, true)
@@ -178,7 +197,7 @@ func RunGME(p *GMEProg) string {
 			}
 			mes[names[i]] = &multiendpoint.MultiEndpointOptions{Endpoints: l}
 		}
-		return &grpcgcp.GCPMultiEndpointOptions{GRPCgcpConfig: &pb.ApiConfig{ChannelPool: &pb.ChannelPoolConfig{MinSize: 1, MaxSize: 2}}, MultiEndpoints: mes, Default: "d", DialFunc: gmesim.Dial}
+		return &grpcgcp.GCPMultiEndpointOptions{GRPCgcpConfig: &pb.ApiConfig{ChannelPool: &pb.ChannelPoolConfig{MinSize: 1, MaxSize: 2}}, MultiEndpoints: mes, Default: "d", DialFunc: dialRec}
 	}
 	mk := func(r uint64) *grpcgcp.GCPMultiEndpointOptions { return mkOK(r, true) }
 	gme, err := grpcgcp.NewGCPMultiEndpoint(mkOK(p.Seed, false))
@@ -296,7 +315,22 @@ func RunGME(p *GMEProg) string {
 		}
 		return ""
 	}
-	defer gme.Close()
+	defer func() {
+		if p.ExtCloseAll {
+			// the application shuts its connections down itself, then the object: every pool's Close() fails now, and
+			// Close() reports that (the race detector watches how it collects the errors)
+			dialedMu.Lock()
+			l := dialedConns
+			dialedMu.Unlock()
+			for _, c := range l {
+				c.Close()
+			}
+		}
+		func() {
+			defer func() { recover() }()
+			gme.Close()
+		}()
+	}()
 	if v, ok := bad.Load("panic"); ok {
 		return "C16,C15|panic in GCPMultiEndpoint workload: " + v.(string)
 	}
